@@ -726,10 +726,19 @@ fn check_meta(c: &WCase) -> Verdict {
     }
     // width: the loader uses the carried value when it is in 1..=1000 and 80 otherwise (stated in the property)
     let cw = carried_width(c.fmt, m.width as i32);
-    let want_w = if (1..=1000).contains(&cw) { cw } else { 80 };
+    // (iCE Draw files carry their exact width in the IDF header, which wins over the even BinaryText width of the record)
+    let want_w = if c.fmt == IDF {
+        m.width as i32
+    } else if (1..=1000).contains(&cw) {
+        cw
+    } else {
+        80
+    };
     if loaded.get_width() != want_w {
         return Verdict::fail(format!("meta.width.buffer|fmt={fmt}"), format!("saved width {}, variant carries {cw}, loaded buffer is {} wide", m.width, loaded.get_width()));
     }
+    // (for iCE Draw the record is re-synchronised with the width of the IDF header on load)
+    let cw = if c.fmt == IDF { want_w } else { cw };
     if (1..=1000).contains(&cw) && s.buffer_size.width != cw {
         return Verdict::fail(format!("meta.width.sauce|fmt={fmt}"), format!("saved width {}, variant carries {cw}, get_sauce().buffer_size.width = {}", m.width, s.buffer_size.width));
     }
